@@ -1503,9 +1503,6 @@ impl FwdOracle {
 						if self.model_error.is_some() {
 							return Ok(());
 						}
-						if std::env::var("VERIF_C02_SOFT_C").is_ok() {
-							return Ok(());
-						}
 						let onchain = self.spent.get(&funding_outpoint(sim, d.chan)).map(|(t, h)| format!("downstream funding spent by {} at height {} (now {})", t, h, self.height)).unwrap_or("downstream channel not on chain".into());
 						return Err(fail(
 							"failed-upstream-while-downstream-claimable",
